@@ -100,8 +100,10 @@ def err_text(e: BaseException) -> str:
     code = getattr(e, 'code', None)
     if code:
         code = str(code).split(':')[-1]
-        return {'FODT0001': 'ERR:OverflowError', 'FORG0001': 'ERR:ValueError',
-                'XPTY0004': 'ERR:TypeError'}.get(code, 'ERR:' + code)
+        return {'FODT0001': 'ERR:OverflowError', 'FORG0001': 'ERR:ValueError', 'FODT0002': 'ERR:FODT0002',
+                'FOAR0002': 'ERR:OverflowError', 'XPTY0004': 'ERR:TypeError'}.get(code, 'ERR:' + code)
+    if isinstance(e, ZeroDivisionError) or type(e).__name__ == 'DivisionByZero':
+        return 'ERR:ZeroDivisionError'
     if isinstance(e, (ValueError, OverflowError, TypeError)) and type(e).__module__ == 'builtins':
         return 'ERR:' + type(e).__name__
     return 'ERR:OTHER:' + type(e).__name__
@@ -201,10 +203,152 @@ def dur_us(d) -> int:
     return int(d.seconds * 10 ** 6)
 
 
+G_KINDS = {'gYear': 'GregorianYear', 'gYearMonth': 'GregorianYearMonth', 'gMonth': 'GregorianMonth',
+           'gMonthDay': 'GregorianMonthDay', 'gDay': 'GregorianDay'}
+
+
+def g_class(kind, ver):
+    import elementpath.datatypes as dtm
+    name = G_KINDS[kind]
+    if ver == '1.0' and kind in ('gYear', 'gYearMonth'):
+        name += '10'
+    return getattr(dtm, name)
+
+
+def g_lexical(kind, ver, f) -> str:
+    """lexical form of a g-value from (lexical year number, month, day, tz)"""
+    y, mo, d, tz = f
+    ys = ('-' if y < 0 else '') + '%04d' % abs(y)
+    body = {'gYear': ys, 'gYearMonth': '%s-%02d' % (ys, mo), 'gMonth': '--%02d' % mo,
+            'gMonthDay': '--%02d-%02d' % (mo, d), 'gDay': '---%02d' % d}[kind]
+    return body + tz_lex(tz)
+
+
+def time_lexical(v) -> str:
+    us, tz = v[3], v[4]
+    sec, u = divmod(us, 10 ** 6)
+    return '%02d:%02d:%02d' % (sec // 3600, sec // 60 % 60, sec % 60) + (('.%06d' % u).rstrip('0') if u else '') + tz_lex(tz)
+
+
+def ctx_eval(ver: str, expr: str, itz=None, variables=None):
+    r = hist_eval(ver, expr, variables, itz)
+    return r
+
+
+def run_impl_ext(case: dict):
+    """xs:time and gYear..gDay operations; None if the op is not one of them"""
+    from elementpath.datatypes import Time, DayTimeDuration, AbstractDateTime
+    op, via, ver = case['op'], case.get('via', 'api'), case.get('ver', '1.0')
+    if op == 'tmk':
+        h, mi, s, us, tz = case['f']
+        text = '%02d:%02d:%02d' % (h, mi, s) + (('.%06d' % us) if us else '') + tz_lex(tz)
+        x = ctx_eval(ver, "xs:time('%s')" % text)[0] if via == 'xpath' else Time.fromstring(text)
+        return canon(x, Time)
+    if op in ('tadd', 'tsub'):
+        a, dur = case['a'], case['dur']
+        if via == 'xpath':
+            x = ctx_eval(ver, "xs:time('%s') %s xs:dayTimeDuration('%s')" % (time_lexical(a), '+' if op == 'tadd' else '-', dur_lex(dur)))[0]
+        else:
+            t = build_obj('t', a)
+            d = DayTimeDuration(seconds=Decimal(dur) / 10 ** 6)
+            x = t + d if op == 'tadd' else t - d
+        return canon(x, Time)
+    if op == 'tdiff':
+        a, b = case['a'], case['b']
+        r = ctx_eval(ver, "xs:time('%s') - xs:time('%s')" % (time_lexical(a), time_lexical(b)), case.get('itz'))[0] if via == 'xpath' \
+            else build_obj('t', a) - build_obj('t', b)
+        return str(dur_us(r)) if type(r) is DayTimeDuration else f'?{type(r).__name__}'
+    if op == 'tcmp':
+        ea, eb = "xs:time('%s')" % time_lexical(case['a']), "xs:time('%s')" % time_lexical(case['b'])
+        return ''.join('1' if ctx_eval(ver, f'{ea} {o} {eb}', case.get('itz'))[0] else '0' for o in ('lt', 'le', 'eq', 'gt', 'ge'))
+    if op == 'tadjust':
+        tz2 = case['tz2']
+        arg = '()' if tz2 is None else "xs:dayTimeDuration('%s')" % dur_lex(tz2 * UM)
+        return canon(ctx_eval(ver, "adjust-time-to-timezone(xs:time('%s'), %s)" % (time_lexical(case['a']), arg))[0], Time)
+    if op == 'gmk':
+        kind = case['k']
+        text = g_lexical(kind, ver, case['f'])
+        cls = g_class(kind, ver)
+        x = ctx_eval(ver, "xs:%s('%s')" % (kind, text))[0] if via == 'xpath' else cls.fromstring(text)
+        if not isinstance(x, AbstractDateTime):
+            return '?' + repr(x)
+        # the string form must be the canonical lexical form of the stored fields
+        back = (x.year + 1 if (ver == '1.1' and x.year < 0) else x.year, x.month, x.day, None if x.tzinfo is None else
+                (x.tzinfo.offset.days * 86400 + x.tzinfo.offset.seconds) // 60)
+        if str(x) != g_lexical(kind, ver, back):
+            return canon(x, cls) + '!str=' + str(x)
+        return canon(x, cls)
+    if op == 'gcast':
+        kind, ck, a = case['k'], case['cls'], case['a']
+        x = ctx_eval(version_of(ck), "xs:%s(%s)" % (kind, xs_ctor(ck, a)))[0]
+        return canon(x, g_class(kind, version_of(ck)))
+    if op == 'gcmp':
+        kind = case['k']
+        ea = "xs:%s('%s')" % (kind, g_lexical(kind, ver, case['fa']))
+        eb = "xs:%s('%s')" % (kind, g_lexical(kind, ver, case['fb']))
+        eq = ctx_eval(ver, f'{ea} eq {eb}', case.get('itz'))[0]
+        ne = ctx_eval(ver, f'{ea} ne {eb}', case.get('itz'))[0]
+        return ('1' if eq else '0') + ('1' if ne else '0')
+    if op == 'lexdt':
+        kind, text = case['k'], case['s']
+        cls = Time if kind == 'time' else classes()[('dt' if kind == 'dateTime' else 'd') + ('11' if ver == '1.1' else '10')]
+        if via == 'xpath' and "'" not in text:
+            x = ctx_eval(ver, "xs:%s('%s')" % (kind, text))[0]
+        else:
+            x = cls.fromstring(text)
+        return canon(x, cls) + '|' + ','.join(str(ord(c)) for c in str(x))
+    if op == 'durop':
+        from fractions import Fraction
+        from elementpath.datatypes import YearMonthDuration, Duration
+        k, x = case['k'], case['x']
+        ym = k.startswith('ym')
+        left = "xs:yearMonthDuration('%s')" % ym_lex(x) if ym else "xs:dayTimeDuration('%s')" % dur_lex(x)
+        if k[2:] in ('add', 'sub'):
+            y = case['y']
+            right = "xs:yearMonthDuration('%s')" % ym_lex(y) if ym else "xs:dayTimeDuration('%s')" % dur_lex(y)
+            sym = '+' if k[2:] == 'add' else '-'
+            if via == 'xpath':
+                r = ctx_eval(ver, f'{left} {sym} {right}')[0]
+            else:
+                mk_ = (lambda v: YearMonthDuration(months=v)) if ym else (lambda v: DayTimeDuration(seconds=Decimal(v) / 10 ** 6))
+                r = mk_(x) + mk_(y) if sym == '+' else mk_(x) - mk_(y)
+        else:
+            kind, val = case['num']
+            lit = {'int': str, 'dec': str, 'dbl': lambda v: "xs:double('%s')" % repr(v)}[kind](val)
+            sym = '*' if k[2:] == 'mul' else 'div'
+            if via == 'xpath':
+                expr = f'{lit} * {left}' if (sym == '*' and case.get('swap')) else f'{left} {sym} {lit}'
+                r = ctx_eval(ver, expr)[0]
+            else:
+                num = int(val) if kind == 'int' else Decimal(val) if kind == 'dec' else float(val)
+                d = YearMonthDuration(months=x) if ym else DayTimeDuration(seconds=Decimal(x) / 10 ** 6)
+                r = d * num if sym == '*' else d / num
+        if not isinstance(r, Duration):
+            return '?' + repr(r)
+        return f'{r.months};{dur_us(r)}'
+    if op == 'dcast':
+        ck, a, to = case['cls'], case['a'], case['to']
+        x = ctx_eval(version_of(ck), "xs:%s(%s)" % (to, xs_ctor(ck, a)))[0]
+        tk = ('d' if to == 'date' else 'dt') + ck[-2:]
+        return canon(x, classes()[tk])
+    if op == 'cmpctx':
+        ck = case['cls']
+        ea, eb = xs_ctor(ck, case['a']), xs_ctor(ck, case['b'])
+        o2 = {'lt': '<', 'le': '<=', 'eq': '=', 'gt': '>', 'ge': '>='}
+        return ''.join('1' if ctx_eval(version_of(ck), '%s %s %s' % (ea, o2[o] if case.get('general') else o, eb), case.get('itz'))[0] else '0'
+                       for o in ('lt', 'le', 'eq', 'gt', 'ge'))
+    return None
+
+
 def run_impl(case: dict) -> str:
     """the real code on one case, canonical text (same shape as the driver's `model=` field)"""
     from elementpath.datatypes import DayTimeDuration, YearMonthDuration, Duration
     op, ck, via = case['op'], case.get('cls', 'dt10'), case.get('via', 'api')
+    if op in ('tmk', 'tadd', 'tsub', 'tdiff', 'tcmp', 'tadjust', 'gmk', 'gcast', 'gcmp', 'cmpctx', 'durop', 'dcast', 'lexdt'):
+        try:
+            return run_impl_ext(case)
+        except Exception as e:
+            return err_text(e)
     cls = classes()[ck]
     ver = version_of(ck)
     try:
@@ -315,6 +459,64 @@ def line_of(case: dict) -> str:
         return f'op=lex V={v} Y={case["y"]}'
     if op == 'comp':
         return f'op=comp A={vstr(case["a"])} V={v}'
+    tzs = lambda z: 'n' if z is None else z
+    if op == 'tmk':
+        h, mi, s_, us, tz = case['f']
+        return f'op=tmk H={h} MI={mi} S={s_} US={us} TZ={tzs(tz)}'
+    if op in ('tadd', 'tsub'):
+        return f'op={op} A={vstr(case["a"])} DUR={case["dur"]}'
+    if op == 'tdiff':
+        itz = case.get('itz')
+        return f'op=tdiff A={vstr(fill_tz(tuple(case["a"]), itz))} B={vstr(fill_tz(tuple(case["b"]), itz))}'
+    if op in ('tcmp', 'cmpctx'):
+        itz = f' ITZ={case["itz"]}' if case.get('itz') is not None else ''
+        return f'op={"tcmp" if op == "tcmp" else "cmp"} A={vstr(case["a"])} B={vstr(case["b"])}{itz}'
+    if op == 'tadjust':
+        return f'op=tadjust A={vstr(case["a"])} TZ={tzs(case["tz2"])}'
+    if op == 'gmk':
+        y, mo, d, tz = case['f']
+        vv = '11' if case.get('ver') == '1.1' else '10'
+        return f'op=gmk K={case["k"]} V={vv} Y={y} MO={mo} D={d} TZ={tzs(tz)}'
+    if op == 'gcast':
+        y, mo, d, us_, tz = case['a']
+        ly = y + 1 if (ck.endswith('11') and y < 0) else y
+        return f'op=gmk K={case["k"]} V={v} Y={ly} MO={mo} D={d} TZ={tzs(tz)}'
+    if op == 'lexdt':
+        vv = '11' if case.get('ver') == '1.1' else '10'
+        return f'op=lexdt K={case["k"]} V={vv} S=' + ','.join(str(ord(c)) for c in case['s'])
+    if op == 'durop':
+        from fractions import Fraction
+        kk = case['k']
+        if 'num' in case:
+            kind, val = case['num']
+            fr = Fraction(int(val)) if kind == 'int' else Fraction(Decimal(val)) if kind == 'dec' else Fraction(float(val))
+            if kind == 'dbl' and kk in ('ymmul', 'ymdiv') and case['x'] != 0 and float(val) != 0 and case.get('via', 'api') == 'api':
+                # datatypes API with a float operand: `self.months * other` / `self.months / other` is IEEE binary64 arithmetic
+                # (trusted component), the rounding rule is then applied to that double.  Through XPath the double operand is
+                # first converted to its exact Decimal (get_operands), so the arithmetic is exact there.
+                p_ = float(case['x']) * float(val) if kk == 'ymmul' else case['x'] / float(val)
+                fr = Fraction(p_) / case['x']
+                kk = 'ymmul'
+            n, d = fr.numerator, fr.denominator
+        else:
+            n, d = 0, 1
+        return f'op=durop K={kk} X={case["x"]} Y={case.get("y", 0)} N={n} D={d}'
+    if op == 'dcast':
+        y, mo, d, us_, tz = case['a']
+        ly = y + 1 if (ck.endswith('11') and y < 0) else y
+        if case['to'] == 'date' or is_date(ck):
+            us_ = 0
+        sec, u = divmod(us_, 10 ** 6)
+        return (f'op=mk V={v} Y={ly} MO={mo} D={d} H={sec // 3600} MI={sec // 60 % 60} S={sec % 60} US={u} TZ={tzs(tz)}'
+                + (' DATE=1' if case['to'] == 'date' else ''))
+    if op == 'gcmp':
+        def dflt(f):
+            y, mo, d, tz = f
+            k = case['k']
+            yi = (y - 1 if (case.get('ver') == '1.1' and y <= 0) else y) if k in ('gYear', 'gYearMonth') else 2000
+            return (yi, mo if k in ('gYearMonth', 'gMonth', 'gMonthDay') else 1, d if k in ('gMonthDay', 'gDay') else 1, 0, tz)
+        itz = f' ITZ={case["itz"]}' if case.get('itz') is not None else ''
+        return f'op=cmp A={vstr(dflt(case["fa"]))} B={vstr(dflt(case["fb"]))}{itz}'
     if op == 'pyord':
         return f'op=pyord N={case["n"]}'
     if op == 'durcmp':
@@ -345,7 +547,12 @@ def parse_answer(ans: str):
 def finding_tags(ans: str) -> list:
     """ids of the listed findings whose trigger predicate (computed by the driver from the input) holds"""
     parts = dict(p.split('=', 1) for p in ans.split(' ') if '=' in p)
-    return (['F11d'] if parts.get('inK') == '1' else []) + (['F11n'] if parts.get('inN') == '1' else [])
+    return (['F11d'] if parts.get('inK') == '1' else []) + (['F11n'] if parts.get('inN') == '1' else []) + \
+        (['F11o'] if parts.get('inO') == '1' else []) + (['F11r'] if parts.get('inR') == '1' else [])
+
+
+def answer_field(ans: str, key: str):
+    return dict(p.split('=', 1) for p in ans.split(' ') if '=' in p).get(key)
 
 
 # ------------------------------------------------------------------------------ generator
@@ -489,6 +696,249 @@ def gen_cases(rng, n, quick):
     return cases
 
 
+def gen_time(rng):
+    us = rng.choice(TIMES + [0, 3600 * 10 ** 6, 82800 * 10 ** 6, rng.randrange(US)])
+    return (2000, 1, 1, us, rng.choice(TZS + [rng.randint(-840, 840)]))
+
+
+def gen_ext_cases(rng, n):
+    """xs:time, gYear..gDay and context-dependent comparisons"""
+    cases = []
+    for _ in range(n):
+        r = rng.random()
+        via = 'xpath' if rng.random() < 0.5 else 'api'
+        ver = rng.choice(['1.0', '1.1'])
+        if r < 0.08:
+            cases.append({'op': 'tmk', 'via': via, 'ver': ver,
+                          'f': [rng.choice([0, 23, 24, 24, 25, rng.randint(0, 23)]), rng.choice([0, 0, 59, 60, rng.randint(0, 59)]),
+                                rng.choice([0, 0, 59, 60, rng.randint(0, 59)]), rng.choice([0, 0, 1, 999999]), rng.choice(TZS)]})
+        elif r < 0.30:
+            t = gen_time(rng)
+            dur = rng.choice([0, 1, -1, US, -US, US - 1, 3600 * 10 ** 6, -3600 * 10 ** 6, US - t[3], -t[3], -t[3] - 1,
+                              rng.randrange(-3 * US, 3 * US), rng.randrange(-10 ** 17, 10 ** 17),
+                              (MAXORD_PY - 730120) * US, (MAXORD_PY - 730119) * US - t[3] - 1, (MAXORD_PY - 730119) * US - t[3],
+                              -730119 * US - t[3], -730119 * US - t[3] - 1, rng.randrange(-4 * 10 ** 20, 4 * 10 ** 20)])
+            op = rng.choice(['tadd', 'tsub'])
+            if op == 'tsub':
+                dur = -dur
+            if abs(dur) // US >= TD_MAX_DAYS:
+                via = 'api'
+            cases.append({'op': op, 'via': via, 'ver': ver, 'a': t, 'dur': dur})
+        elif r < 0.40:
+            itz = rng.choice([None, None, 0, 840, -300]) if via == 'xpath' else None
+            cases.append({'op': 'tdiff', 'via': via, 'ver': ver, 'a': gen_time(rng), 'b': gen_time(rng), 'itz': itz})
+        elif r < 0.52:
+            a = gen_time(rng)
+            b = gen_time(rng) if rng.random() < 0.6 else (2000, 1, 1, (a[3] - (a[4] or 0) * UM + (rng.choice(TZS) or 0) * UM) % US, rng.choice(TZS))
+            cases.append({'op': 'tcmp', 'ver': ver, 'a': a, 'b': b, 'itz': rng.choice([None, None, 0, 840, -300, 330])})
+        elif r < 0.60:
+            cases.append({'op': 'tadjust', 'ver': ver, 'a': gen_time(rng), 'tz2': rng.choice([None, 0, 840, -840, 330, -300, rng.randint(-840, 840)])})
+        elif r < 0.78:
+            kind = rng.choice(list(G_KINDS))
+            y = rng.choice([0, 1, -1, -4, -5, 4, 2000, 9999, 10000, -10000, 12345678, gen_year(rng, False)])
+            cases.append({'op': 'gmk', 'via': via, 'ver': ver, 'k': kind,
+                          'f': [y, rng.choice([0, 1, 2, 2, 12, 13, rng.randint(1, 12)]), rng.choice([0, 1, 28, 29, 30, 31, 32]), rng.choice(TZS)]})
+        elif r < 0.86:
+            ck = rng.choice(['dt10', 'dt11', 'd10', 'd11'])
+            v = gen_value(rng, ck, allow_huge=False)
+            cases.append({'op': 'gcast', 'k': rng.choice(list(G_KINDS)), 'cls': ck, 'a': v})
+        elif r < 0.93:
+            kind = rng.choice(list(G_KINDS))
+            fa = [rng.choice([1, -1, 2000, 2001, -5, 10000]), rng.choice([1, 2, 3, 12]), rng.choice([1, 2, 28, 29]), rng.choice(TZS)]
+            fb = list(fa) if rng.random() < 0.5 else [rng.choice([1, -1, 2000, 2001, -5, 10000]), rng.choice([1, 2, 3, 12]), rng.choice([1, 2, 28, 29]), None]
+            fb[3] = rng.choice(TZS + [fa[3]])
+            if fa[1] == 2 and fa[2] == 29 and kind == 'gMonthDay':
+                pass
+            cases.append({'op': 'gcmp', 'ver': ver, 'k': kind, 'fa': fa, 'fb': fb, 'itz': rng.choice([None, None, 0, 840, -300])})
+        elif r < 0.955:
+            ck = rng.choice(['dt10', 'dt11', 'd10', 'd11'])
+            cases.append({'op': 'dcast', 'cls': ck, 'to': rng.choice(['date', 'dateTime']), 'a': gen_value(rng, ck, allow_huge=False)})
+        else:
+            ck = rng.choice(['dt10', 'dt11', 'd10', 'd11'])
+            v = gen_value(rng, ck, allow_huge=False)
+            w = gen_target_near(rng, v, ck)
+            cases.append({'op': 'cmpctx', 'cls': ck, 'a': v, 'b': w, 'itz': rng.choice([None, 0, 840, -840, -300, 330]),
+                          'general': rng.random() < 0.5})
+    return cases
+
+
+MAXORD_PY = 3652059
+
+
+def xsd_lexical(kind: str, text: str):
+    """oracle for the lexical space, written from the XSD 1.1 grammar (dateTimeLexicalRep, dateLexicalRep,
+    timeLexicalRep: yearFrag, monthFrag, dayFrag, hourFrag, minuteFrag, secondFrag, endOfDayFrag, timezoneFrag), after
+    whiteSpace collapse.  Returns the fields (neg, year, month, day, h, mi, s, us, tz) or None.  Day-of-month validity
+    and the year numbering are left to the value mapping (the driver's spec)."""
+    t = text.strip(' \t\n\r')
+    D = '0123456789'
+
+    def num(st, lo, hi):
+        if len(st) == 2 and st[0] in D and st[1] in D and lo <= int(st) <= hi:
+            return int(st)
+        return None
+    tz = None
+    if t.endswith('Z'):
+        tz, t = 0, t[:-1]
+    elif len(t) >= 6 and t[-6] in '+-' and t[-3] == ':':
+        hh, mm = num(t[-5:-3], 0, 14), num(t[-2:], 0, 59)
+        if hh is None or mm is None or (hh == 14 and mm != 0):
+            return None
+        tz = (hh * 60 + mm) * (-1 if t[-6] == '-' else 1)
+        t = t[:-6]
+    dpart = tpart = None
+    if kind == 'dateTime':
+        if t.count('T') != 1:
+            return None
+        dpart, tpart = t.split('T')
+    elif kind == 'date':
+        dpart = t
+    else:
+        tpart = t
+    neg = year = mo = d = None
+    if dpart is not None:
+        neg = dpart.startswith('-')
+        body = dpart[1:] if neg else dpart
+        parts = body.split('-')
+        if len(parts) != 3:
+            return None
+        ys = parts[0]
+        if len(ys) < 4 or any(c not in D for c in ys) or (len(ys) > 4 and ys[0] == '0'):
+            return None
+        year, mo, d = int(ys), num(parts[1], 1, 12), num(parts[2], 1, 31)
+        if mo is None or d is None:
+            return None
+    h = mi = sec = us = 0
+    if tpart is not None:
+        fr = ''
+        if '.' in tpart:
+            tpart, fr = tpart.split('.', 1)
+            if not fr or any(c not in D for c in fr):
+                return None
+        if len(tpart) != 8 or tpart[2] != ':' or tpart[5] != ':':
+            return None
+        if tpart == '24:00:00':
+            if fr.strip('0'):
+                return None
+            h, mi, sec = 24, 0, 0
+        else:
+            h, mi, sec = num(tpart[0:2], 0, 23), num(tpart[3:5], 0, 59), num(tpart[6:8], 0, 59)
+            if h is None or mi is None or sec is None:
+                return None
+        us = int((fr + '000000')[:6]) if fr else 0
+    return (neg, year, mo, d, h, mi, sec, us, tz)
+
+
+PY_SPACES = [' ', '\t', '\n', '\r', '\x0b', '\x0c', '\x1c', '\x1f', '\x85', '\xa0', '\u2003', '\u3000']
+
+
+def gen_lex_cases(rng, n):
+    """strings inside and outside the lexical spaces of xs:dateTime / xs:date / xs:time; `intent` is the companion
+    single-operation case (constructor from fields) whose *spec* answer is the expected value, or None = reject"""
+    cases = []
+    for _ in range(n):
+        kind = rng.choice(['dateTime', 'dateTime', 'date', 'time'])
+        ver = rng.choice(['1.0', '1.1'])
+        y = rng.choice([0, 1, -1, -4, 4, 9999, 10000, -10000, 2000, 2024, 123456, gen_year(rng, False)])
+        ly = abs(y)
+        neg = y < 0 or (y == 0 and rng.random() < 0.3)
+        mo = rng.choice([1, 2, 2, 12, rng.randint(1, 12), 0, 13])
+        d = rng.choice([1, 28, 29, 30, 31, rng.randint(1, 28), 0, 32])
+        h = rng.choice([0, 12, 23, 24, 24, rng.randint(0, 23), 25])
+        mi = rng.choice([0, 0, 30, 59, rng.randint(0, 59), 60])
+        sec = rng.choice([0, 0, 15, 59, rng.randint(0, 59), 60])
+        frac = rng.choice(['', '', '', '.5', '.500', '.000001', '.0000001', '.9999999', '.123456789', '.0', '.' + str(rng.randint(0, 999999))])
+        tz = rng.choice(TZS + [rng.randint(-840, 840)])
+        ydig = '%04d' % ly
+        us = int((frac[1:] + '000000')[:6]) if frac else 0
+        dpart = ('-' if neg else '') + ydig + '-%02d-%02d' % (mo, d)
+        tpart = '%02d:%02d:%02d' % (h, mi, sec) + frac
+        text = {'dateTime': dpart + 'T' + tpart, 'date': dpart, 'time': tpart}[kind] + tz_lex(tz)
+        ck = ('dt' if kind == 'dateTime' else 'd') + ('11' if ver == '1.1' else '10')
+        if kind == 'time':
+            intent = {'op': 'tmk', 'f': [h, mi, sec, us, tz]}
+        else:
+            intent = {'op': 'mk', 'cls': ck, 'f': [(-ly if neg else ly), mo, d, h, mi, sec, us, tz], 'neg': neg}
+            if kind == 'date':
+                intent['f'][3:7] = [0, 0, 0, 0]
+        r = rng.random()
+        if r < 0.55:
+            pass
+        elif r < 0.65:
+            text = rng.choice(PY_SPACES) * rng.randint(0, 2) + text + rng.choice(PY_SPACES) * rng.randint(0, 2)
+        else:
+            # leave the lexical space
+            m = rng.random()
+            if m < 0.12 and kind != 'time' and ly < 100000:
+                text = ('-' if neg else '') + '0' + text.lstrip('-')          # leading zero on a year of more than 4 digits
+                if len(ydig) < 4 + 0:
+                    pass
+            elif m < 0.24:
+                i = rng.randrange(len(text))
+                text = text[:i] + text[i + 1:]                                # drop one character
+            elif m < 0.36:
+                i = rng.randrange(len(text) + 1)
+                text = text[:i] + rng.choice(['0', ' ', '-', ':', 'T', 'Z', '.', '+', 'x', '\u0663', '\uff11']) + text[i:]   # insert one
+            elif m < 0.48:
+                text = text.replace('T', rng.choice(['t', ' ', '']), 1) if 'T' in text else text + 'T'
+            elif m < 0.60:
+                text = text[:-1] + rng.choice(['z', '+14:01', '+15:00', '-14:30', '+1:00', '+01:0', '+0100', 'ZZ', '+24:00', '-00:60']) if tz is not None else \
+                    text + rng.choice(['z', '+14:01', '+15:00', '+1:00', '+0100', ' Z', '+24:00', '-00:60'])
+            elif m < 0.72:
+                digits = [i for i, c in enumerate(text) if c.isdigit()]
+                i = rng.choice(digits)
+                text = text[:i] + rng.choice(['\u0663', '\uff11', '\u0967', 'a', ' ']) + text[i + 1:]   # non-ASCII digit etc.
+            elif m < 0.84 and kind != 'time':
+                text = ('+' if not neg else '--') + text.lstrip('-')
+            else:
+                text = text.replace('.', rng.choice(['.', ',', '..', '. ']), 1) + ('.' if rng.random() < 0.3 else '')
+            intent = '?'     # decided below: still valid only if the mutation happened to give the same/another valid literal
+        cases.append({'op': 'lexdt', 'via': rng.choice(['api', 'xpath']), 'ver': ver, 'k': kind, 's': text, 'intent': intent})
+    return cases
+
+
+def gen_dur_cases(rng, n):
+    """arithmetic on durations: ± duration, × ÷ integer / decimal / double"""
+    cases = []
+    for _ in range(n):
+        ym = rng.random() < 0.5
+        via = rng.choice(['api', 'xpath'])
+        if ym:
+            x = rng.choice([0, 1, -1, 5, -5, 7, 12, 35, -35, 2 ** 31, -2 ** 31, 2 ** 31 - 1, rng.randint(-10 ** 6, 10 ** 6), rng.randint(-2 ** 31, 2 ** 31)])
+        else:
+            x = rng.choice([0, 1, -1, 10 ** 6, -10 ** 6, 2 * 10 ** 6, US, -US, 500000, 1500000, 2500000, rng.randint(-10 ** 15, 10 ** 15)])
+        r = rng.random()
+        if r < 0.25:
+            y = rng.choice([0, 1, -1, x, -x, 13, 2 ** 31, -2 ** 31, rng.randint(-10 ** 6, 10 ** 6)]) if ym else \
+                rng.choice([0, 1, -1, x, -x, US, 10 ** 6 - 1, rng.randint(-10 ** 15, 10 ** 15)])
+            cases.append({'op': 'durop', 'via': via, 'k': ('ym' if ym else 'dt') + rng.choice(['add', 'sub']), 'x': x, 'y': y})
+            continue
+        opk = rng.choice(['mul', 'div'])
+        kind = rng.choice(['int', 'dec', 'dbl'])
+        if kind == 'int':
+            val = rng.choice([0, 1, -1, 2, -2, 3, -3, 4, 7, 10, 12, 1000, -1000, rng.randint(-10 ** 6, 10 ** 6)])
+        elif kind == 'dec':
+            val = rng.choice(['0.5', '-0.5', '1.5', '2.5', '0.1', '2.3', '-2.3', '1.0000005', '1.0000015', '0.000001', '0.0000005', '0.0',
+                              '%d.%06d' % (rng.randint(0, 1000), rng.randint(0, 999999)), '-%d.%03d' % (rng.randint(0, 1000), rng.randint(0, 999))])
+        else:
+            # doubles: dyadic with a small denominator for dayTimeDurations (the Decimal product must stay within 28 digits);
+            # any finite double for yearMonthDurations
+            val = rng.choice([0.5, -0.5, 1.5, 2.5, -2.5, 0.25, 3.0, 1024.0, 0.0009765625, rng.randint(-10 ** 6, 10 ** 6) / 1024.0])
+            if ym and rng.random() < 0.6:
+                val = rng.choice([0.1, 2.3, -2.3, 1e-3, 1e10, 1e-30, rng.uniform(-100, 100), rng.uniform(-1e-3, 1e-3), 0.0])
+        if opk == 'div' and kind == 'dbl' and val == 0 and via == 'api':
+            via = 'xpath'
+        if kind == 'int' and val == 0 and opk == 'div':
+            via = 'xpath'    # the zero test belongs to the XPath `div` operator
+        if kind == 'dec' and Decimal(val) == 0 and opk == 'div':
+            via = 'xpath'
+        c = {'op': 'durop', 'via': via, 'k': ('ym' if ym else 'dt') + opk, 'x': x, 'num': [kind, val]}
+        if via == 'xpath' and opk == 'mul' and rng.random() < 0.3:
+            c['swap'] = True
+        cases.append(c)
+    return cases
+
+
 CORPUS = [
     # F11a (fixed): BCE 1st of January with a time part
     {'op': 'add', 'cls': 'dt10', 'via': 'xpath', 'a': (-820, 1, 1, 45015 * 10 ** 6, None), 'dur': 0},
@@ -534,8 +984,34 @@ CORPUS = [
 ]
 
 
+EXT_CORPUS = [
+    {'op': 'tadd', 'via': 'xpath', 'a': (2000, 1, 1, 82800 * 10 ** 6, None), 'dur': 7200 * 10 ** 6},
+    {'op': 'tsub', 'via': 'xpath', 'a': (2000, 1, 1, 3600 * 10 ** 6, 300), 'dur': 7200 * 10 ** 6},
+    {'op': 'tadd', 'via': 'xpath', 'a': (2000, 1, 1, 82800 * 10 ** 6, None), 'dur': 3000000 * US},      # F11o
+    {'op': 'tsub', 'via': 'xpath', 'a': (2000, 1, 1, 82800 * 10 ** 6, None), 'dur': 731000 * US},       # F11o
+    {'op': 'tadjust', 'a': (2000, 1, 1, 79200 * 10 ** 6, -420), 'tz2': 600},
+    {'op': 'tcmp', 'a': (2000, 1, 1, 36000 * 10 ** 6, None), 'b': (2000, 1, 1, 72000 * 10 ** 6, -240), 'itz': 840},
+    {'op': 'tdiff', 'via': 'xpath', 'a': (2000, 1, 1, 0, None), 'b': (2000, 1, 1, 500000, None)},
+    {'op': 'tmk', 'via': 'xpath', 'f': [24, 0, 0, 0, None]}, {'op': 'tmk', 'f': [24, 0, 1, 0, None]},
+    {'op': 'gmk', 'ver': '1.0', 'k': 'gMonthDay', 'f': [0, 2, 29, None]}, {'op': 'gmk', 'ver': '1.0', 'k': 'gMonthDay', 'f': [0, 2, 30, None]},
+    {'op': 'gmk', 'ver': '1.1', 'k': 'gYear', 'f': [0, 0, 0, 60]}, {'op': 'gmk', 'ver': '1.0', 'k': 'gYear', 'f': [0, 0, 0, None]},
+    {'op': 'gmk', 'ver': '1.1', 'k': 'gYear', 'via': 'xpath', 'f': [-10000, 0, 0, None]}, {'op': 'gmk', 'ver': '1.0', 'k': 'gMonth', 'f': [0, 13, 0, None]},
+    {'op': 'gmk', 'ver': '1.1', 'k': 'gYearMonth', 'f': [-4, 2, 0, -840]}, {'op': 'gmk', 'ver': '1.0', 'k': 'gDay', 'f': [0, 0, 31, 840]},
+    {'op': 'gcast', 'k': 'gYear', 'cls': 'dt10', 'a': (-2, 3, 4, 0, None)}, {'op': 'gcast', 'k': 'gYearMonth', 'cls': 'd11', 'a': (-2, 3, 4, 0, 60)},
+    {'op': 'gcast', 'k': 'gMonthDay', 'cls': 'dt11', 'a': (1999, 2, 28, 0, 0)},
+    {'op': 'gcmp', 'ver': '1.0', 'k': 'gDay', 'fa': [1, 1, 1, 840], 'fb': [1, 1, 1, -600], 'itz': None},
+    {'op': 'gcmp', 'ver': '1.0', 'k': 'gDay', 'fa': [1, 1, 31, None], 'fb': [1, 1, 31, 0], 'itz': 840},
+    {'op': 'cmpctx', 'cls': 'dt10', 'a': (2002, 2, 1, 0, None), 'b': (2002, 1, 31, 74220 * 10 ** 6, 0), 'itz': 840},   # F11n
+    {'op': 'cmpctx', 'cls': 'd11', 'a': (2002, 2, 1, 0, None), 'b': (2002, 2, 1, 0, 0), 'itz': 840, 'general': True},
+]
+
+
 # ----------------------------------------------------------------------- correspondence
-SITES = {'comp': 'year/month/day/hours/minutes/seconds/timezone-from-*', 'adjustdate': 'XPathToken.adjust_datetime (Date)', 'mk': 'AbstractDateTime.__init__/fromstring', 'lex': 'fromstring/iso_year/year-from-*',
+SITES = {'lexdt': 'AbstractDateTime.fromstring (pattern, year/microsecond handling) + __str__',
+         'durop': 'YearMonthDuration/DayTimeDuration __add__ __sub__ __mul__ __truediv__', 'dcast': 'DateTime.make / Date.make',
+         'tmk': 'Time.__init__', 'tadd': 'Time.__add__', 'tsub': 'Time.__sub__', 'tdiff': 'Time.__sub__(Time)', 'tcmp': '_compare (xs:time)',
+         'tadjust': 'adjust_datetime (Time)', 'gmk': 'Gregorian*.__init__/fromstring/__str__', 'gcast': 'Gregorian*.make', 'gcmp': '_compare (g-types)',
+         'cmpctx': 'value/general comparison operators + implicit timezone', 'comp': 'year/month/day/hours/minutes/seconds/timezone-from-*', 'adjustdate': 'XPathToken.adjust_datetime (Date)', 'mk': 'AbstractDateTime.__init__/fromstring', 'lex': 'fromstring/iso_year/year-from-*',
          'todelta': 'AbstractDateTime.todelta', 'rt': 'fromdelta(todelta())', 'fromdelta': 'AbstractDateTime.fromdelta',
          'add': '_operation DayTimeDuration', 'sub': '_operation DayTimeDuration', 'addym': '_operation YearMonthDuration',
          'diff': '_operation AbstractDateTime', 'cmp': 'AbstractDateTime._compare', 'adjust': 'XPathToken.adjust_datetime',
@@ -556,7 +1032,29 @@ def year_class(y):
     return era + ':beyond-timedelta'
 
 
+def resolve_lex_intents(run: Run, cases: list) -> None:
+    """lexdt: `_spec` = the specification's value for the string: the XSD-grammar oracle decides membership and
+    extracts the fields, the driver's *spec* side of the constructor (`mk` / `tmk`) gives the value"""
+    todo = []
+    for c in cases:
+        if c.get('op') == 'lexdt' and '_spec' not in c:
+            f = xsd_lexical(c['k'], c['s'])
+            if f is None:
+                c['_spec'] = 'ERR:ValueError'
+                continue
+            neg, year, mo, d, h, mi, sec, us, tz = f
+            if c['k'] == 'time':
+                todo.append((c, {'op': 'tmk', 'f': [h, mi, sec, us, tz]}))
+            else:
+                ck = ('dt' if c['k'] == 'dateTime' else 'd') + ('11' if c.get('ver') == '1.1' else '10')
+                todo.append((c, {'op': 'mk', 'cls': ck, 'f': [(-year if neg else year), mo, d, h, mi, sec, us, tz], 'neg': neg}))
+    if todo:
+        for (c, _), ans in zip(todo, run.driver('C11', [line_of(i) for _, i in todo])):
+            c['_spec'] = parse_answer(ans)[1]
+
+
 def compare(run: Run, cases: list, record=True) -> list:
+    resolve_lex_intents(run, cases)
     lines = [line_of(c) for c in cases]
     answers = run.driver('C11', lines)
     out = []
@@ -581,8 +1079,8 @@ def compare(run: Run, cases: list, record=True) -> list:
                 st.count('tz:' + ('none' if case['a'][4] is None else 'Z' if case['a'][4] == 0 else 'offset'))
             if impl.startswith('ERR'):
                 st.count('impl:' + impl)
-            if ink:
-                st.count('inK(F11d)')
+            for tg in finding_tags(ans):
+                st.count('in-trigger(%s)' % tg)
             if op in ('add', 'sub', 'rt', 'fromdelta', 'addym') and not spec.startswith('ERR'):
                 ry = int(spec.split(':')[0])
                 st.count('result-year:' + year_class(ry))
@@ -592,16 +1090,36 @@ def compare(run: Run, cases: list, record=True) -> list:
                     st.count('result:feb-29')
             if op == 'cmp' and case['a'][0] != case['b'][0] and abs(case['a'][0] - case['b'][0]) <= 2:
                 st.count('cmp:contiguous-years')
-        tags = ['F11d'] if ink else []
+        tags = finding_tags(ans)
+        if case['op'] == 'lexdt':
+            # the specification side: the value the generator intended (valid field tuple -> the constructor's spec value,
+            # computed by the driver for the companion `mk`/`tmk` line), or a rejection for a string outside the lexical space
+            spec = case.get('_spec', model)
+            if not spec.startswith('ERR') and '|' in (model or ''):
+                spec = spec + '|' + model.split('|', 1)[1]   # string form: compared against the model's formatter
+        if case['op'] == 'durop':
+            # F&O: FODT0002 for overflow *and* for a zero divisor; the datatypes API raises OverflowError / ZeroDivisionError;
+            # the `div` operator reports the overflow as FOAR0002 (noted in docs/C11.md)
+            rng_err = {'ERR:OverflowError', 'ERR:ZeroDivisionError', 'ERR:FODT0002'}
+            impl, model, spec = ('ERR:duration-range' if x in rng_err else x for x in (impl, model, spec))
+        if case['op'] == 'gcmp':
+            # only eq / ne exist for the Gregorian partial types: (eq, ne) from the eq bit of the 5 operators
+            model, spec = (x[2] + ('0' if x[2] == '1' else '1') for x in (model, spec))
+        model0 = answer_field(ans, 'model0')
+        if 'F11n' in tags and impl != spec and model0 is not None:
+            # until fix-c11-2 is in the tree the operators ignore the implicit timezone: `_compare` on the raw operands
+            m0 = model0 if case['op'] != 'gcmp' else model0[2] + ('0' if model0[2] == '1' else '1')
+            if impl == m0:
+                model = m0
         site = SITES.get(case['op'], '')
         if impl != spec:
             # property violated on the real code (listed finding iff the trigger predicate holds)
             d = Disagreement(case, impl, model, spec, what=case['op'], site=site, tags=tags)
             run.disagree(d)
             out.append(d)
-        elif ink and record:
-            st.count('inK-but-agrees')
-        if impl != model and (impl == spec or ink):
+        elif tags and record:
+            st.count('in-trigger-but-agrees')
+        if impl != model and (impl == spec or tags):
             # the model must mirror the code everywhere, also inside a finding's trigger
             d = Disagreement(case, impl, model, None, what=case['op'] + '-model', site=site)
             run.disagree(d)
@@ -624,7 +1142,12 @@ def hist_subcases(case: dict) -> list:
     for st in case['steps']:
         k = st[0]
         if ck == 't':
-            out.append(None)
+            sub = {'adjust': lambda: {'op': 'tadjust', 'a': a, 'tz2': st[1]}, 'adjust1': lambda: {'op': 'tadjust', 'a': a, 'tz2': itz},
+                   'comp': lambda: {'op': 'comp', 'cls': 'dt10', 'a': a}, 'add': lambda: {'op': 'tadd', 'a': a, 'dur': st[1]},
+                   'sub': lambda: {'op': 'tsub', 'a': a, 'dur': st[1]},
+                   'cmp': lambda: {'op': 'tcmp', 'a': a, 'b': tuple(st[1]), 'itz': itz},
+                   'diff': lambda: {'op': 'tdiff', 'a': a, 'b': tuple(st[1]), 'itz': itz}}[k]()
+            out.append(sub)
         elif k == 'adjust':
             out.append({'op': 'adjust', 'cls': ck, 'a': a, 'tz2': st[1]})
         elif k == 'adjust1':
@@ -662,10 +1185,11 @@ def step_exprs(ck: str, st) -> list:
         return ['%s-from-%s($d)' % (q, T) for q in parts] + ["(timezone-from-%s($d), 'none')[1]" % T]
     if k in ('add', 'sub'):
         return ["$d %s xs:dayTimeDuration('%s')" % ('+' if k == 'add' else '-', dur_lex(st[1]))]
+    other = ("xs:time('%s')" % time_lexical(tuple(st[1]))) if ck == 't' and k in ('cmp', 'diff') else None
     if k == 'cmp':
-        return ['$d %s %s' % (o, xs_ctor(ck, tuple(st[1]))) for o in ('lt', 'le', 'eq', 'gt', 'ge')]
+        return ['$d %s %s' % (o, other or xs_ctor(ck, tuple(st[1]))) for o in ('lt', 'le', 'eq', 'gt', 'ge')]
     if k == 'diff':
-        return ['$d - %s' % xs_ctor(ck, tuple(st[1]))]
+        return ['$d - %s' % (other or xs_ctor(ck, tuple(st[1])))]
     raise ValueError(k)
 
 
@@ -689,7 +1213,7 @@ def step_canon(ck: str, st, items: list) -> str:
         if is_date(ck):
             nums += [0, 0, 0]
         elif ck == 't':
-            nums = [0, 0, 0] + nums
+            nums = [2000, 1, 1] + nums
         if len(nums) != 6:
             return '?' + repr(items)[:80]
         sec = nums[5]
@@ -822,6 +1346,9 @@ def compare_hist(run: Run, cases: list, record=True) -> list:
                 tags = finding_tags(ans)
                 if record and 'F11n' in tags:
                     st.count('inN(F11n)')
+                model0 = answer_field(ans, 'model0')
+                if 'F11n' in tags and res != spec and res == model0:
+                    model = model0          # tree without fix-c11-2: implicit timezone ignored by comparisons
                 if res != spec:
                     d = Disagreement(prefix, res, model, spec, what='history-result:' + case['steps'][k][0],
                                      site='value reused after ' + ','.join(x[0] for x in case['steps'][:k]) or 'first call', tags=tags)
@@ -872,12 +1399,14 @@ def gen_hist(rng, ck=None, mode=None):
             steps.append(['adjust1'])
         elif r < 0.75:
             steps.append(['comp'])
-        elif r < 0.85 or ck == 't':
+        elif r < 0.85:
             steps.append([rng.choice(['add', 'sub']), rng.choice([10 ** 6, US, 3600 * 10 ** 6, 0])])
         else:
             w = of_local(local_us(v) + rng.choice([-1, 1]) * rng.randrange(0, 30 * 3600 * 10 ** 6), rng.choice([None, 0, 600, tz]))
-            if is_date(vk):
+            if is_date(vk) and ck != 't':
                 w = w[:3] + (0,) + w[4:]
+            if ck == 't':
+                w = (2000, 1, 1) + w[3:]
             steps.append([rng.choice(['cmp', 'diff']), list(w)])
     return {'op': 'hist', 'cls': ck, 'mode': mode, 'a': list(v), 'itz': itz, 'steps': steps}
 
@@ -954,7 +1483,7 @@ def jsonable(c):
 
 def correspond(run: Run) -> None:
     rng = run.rng
-    n = run.scale(60000, 600000)
+    n = run.scale(40000, 500000)
     cases = [dict(c) for c in CORPUS] + gen_cases(rng, n, run.quick)
     run.stats.rule = (
         'one case = one operation on generated operands: constructor from lexical fields (valid/invalid, 24:00:00, '
@@ -969,7 +1498,9 @@ def correspond(run: Run) -> None:
         '2.7M (timedelta edge), 2^31-1, random}. distinct = distinct protocol lines')
     for i in range(0, len(cases), 20000):
         compare(run, cases[i:i + 20000])
-    hists = [dict(c) for c in HIST_CORPUS] + [gen_hist(rng) for _ in range(run.scale(4000, 40000))]
+    compare(run, [dict(c) for c in EXT_CORPUS] + gen_ext_cases(rng, run.scale(5000, 80000)) + gen_dur_cases(rng, run.scale(3000, 50000))
+            + gen_lex_cases(rng, run.scale(4000, 60000)))
+    hists = [dict(c) for c in HIST_CORPUS] + [gen_hist(rng) for _ in range(run.scale(3000, 40000))]
     for i in range(0, len(hists), 5000):
         compare_hist(run, hists[i:i + 5000])
 
